@@ -120,6 +120,8 @@ def record(src):
         n, m, mode = src['n'], src['m'], src['mode']
         case = A.base_case(src, PROP, f'mul-{mode}')
         outlen = n + m - 1 if (n == 1 or m == 1) else n + m
+        if mode in ('SIMPLE_KARATSUBA', 'DADDA_KARATSUBA'):
+            outlen = -1     # unexported helpers (not a MulMode): judged on the product only, the width rule speaks of the modes
         events = []
         try:
           with multrace.traced(events):      # the multiplier's own steps, for the weight ledger (drift only)
